@@ -32,7 +32,7 @@ MANIFEST = {
             "configured so far (c15_history, c15_reinitialize), source-adding options keep earlier loaders "
             "(c15_add_monotone; refuted for the unrepaired AddConfigLoader: D-C15a). The model is tied to the code on every run "
             "by vm_compute against real App.Run starts and multi-step histories on one Configure: Get(path) for every path of "
-            "every document, the read order of user-written loaders, a prefix-bound field; the arguments loader modelled from the argument strings (parse_arg / argv_load, c15_args_value_is_rest_after_first_eq) and option values / loader slices re-used across Apps and starts",
+            "every document, the read order of user-written loaders, a prefix-bound field; the arguments loader modelled from the argument strings (parse_arg / argv_load, c15_args_value_is_rest_after_first_eq) and option values / loader slices re-used across Apps and starts; process-wide options (app.Settings) in processes of their own; environment variables named like the configuration paths",
     "design_ref": "DESIGN.md 5 C15",
     "note": "trusted: Coq kernel + vm_compute; hand-written model of viper v1.19.0 mergeMaps/searchMap and go-kid/properties "
             "buildMap (third-party, modelled as they behave); Go harness and Python generators; keys are lower-case identifiers "
